@@ -20,6 +20,7 @@ Cases:
   {"op":"dc","key":{"s":str}|{"l":[..]}|{"t":[..]},"items":[W|null,..]}   DeleteContext
   {"op":"setctx","key":str,"value":W|{"pieces":..},"ctxs":[W,..]}    SetContext._set_context / _get_context
   {"op":"context","items":[W|null,..],"names":[str,..]}              Context.__call__ / __getattr__ / __repr__
+  {"op":"tostrj","vs":[J,..]}                     to_string on dictionaries with keys that are not strings ({"D":[[key,J],..]})
   {"op":"wfdup","vs":[W,..]}                      model only: the well-formedness test on wire values with repeated keys
 Keys of dc/fuw/setctx/s2d may also be non-strings (an int, null, a wire list): the malformed-argument contract.
 """
@@ -182,6 +183,17 @@ def dec(w):
             return (1, 2)
         return object()
     return w
+
+
+def decj(w):
+    """wire form with arbitrary scalar keys: {"D": [[key, value], ...]}"""
+    if isinstance(w, dict) and "D" in w:
+        return {dec(k): decj(x) for k, x in w["D"]}
+    if isinstance(w, dict) and "d" in w:
+        return {k: decj(x) for k, x in w["d"]}
+    if isinstance(w, dict) and "L" in w:
+        return [decj(x) for x in w["L"]]
+    return dec(w)
 
 
 def modelable(w):
@@ -569,6 +581,20 @@ def gen_cases(ctx):
         v = rand_ctx(rng, ["a", "b", "c", "B"], 3, leaves=(1, True, "1", None, [1, 2], [], [{"b": 1, "a": 2}, 1], 2.5, 1.0, {}, "a"))
         vs = [v, scramble(v, "rev"), scramble(v, "rot")] + mutants(v)[:25]
         yield ({"op": "tostr", "vs": [enc(x) for x in vs]})
+    # ---- to_string with keys that are not strings ----------------------------------------------------
+    K = [1, 2, 10, -1, True, False, None, "1", "a", "b", {"f": "1.5"}, {"o": "x"}]
+    for a, b in itertools.product(K, repeat=2):
+        if dec(a) == dec(b) and not (isinstance(a, dict) or isinstance(b, dict)):
+            continue                  # 1 and True are the same key
+        if jdump(a) == jdump(b):
+            continue
+        yield ({"op": "tostrj", "vs": [{"D": [[a, 0], [b, {"D": [[b, None]]}]]}, {"D": [[b, {"D": [[b, None]]}], [a, 0]]},
+                                        {"D": [[a, 0]]}, {"D": [[b, {"L": [1, {"D": [[a, 1]]}]}]]}]})
+    for _ in range(300 if thorough else 40):
+        ks = rng.sample([0, 1, 2, 3, 10, 11, -5, 100], rng.randint(2, 5))
+        v1 = {"D": [[k, rng.choice([None, 1, "x", {"D": [[7, 1], [3, 2]]}])] for k in ks]}
+        v2 = {"D": list(reversed(v1["D"]))}
+        yield ({"op": "tostrj", "vs": [v1, v2, {"D": [[str(k), x] for k, x in v1["D"]]}]})
     # the well-formedness test of the theorems (no key twice), on wire values that no Python dict can hold
     yield ({"op": "wfdup", "vs": [{"d": [["a", 1], ["a", 2]]}, {"d": [["a", 1], ["b", {"d": [["c", 1], ["c", 1]]}]]},
                                   {"d": [["a", {"L": [1, {"d": [["x", 1], ["y", 2], ["x", 3]]}]}]]}, {"d": [["a", 1], ["b", 2]]},
@@ -877,6 +903,8 @@ def run_impl(case):
         return _run_dc(case)
     if op == "context":
         return _run_context(case)
+    if op == "tostrj":
+        return {"r": [_outcome(lambda: lc.to_string(decj(w))) for w in case["vs"]]}
     if op == "wfdup":
         return {}
     raise ValueError(op)
@@ -1175,6 +1203,8 @@ def _main_requests(case):
         return [{"op": "to_string", "vs": vs}, {"op": "pyeq", "vs": vs}]
     if op == "context":
         return [{"op": "context", "items": case["items"], "names": case["names"]}]
+    if op == "tostrj":
+        return [{"op": "to_string_j", "vs": case["vs"]}]
     if op == "wfdup":
         return []
     if op == "upd":
@@ -1347,6 +1377,12 @@ def _compare_main(case, res, replies):
         return None
     if op in ("upd", "fuw"):
         return _cmp_out(op, {k: v for k, v in res.items() if k in ("r", "e")}, replies[0])
+    if op == "tostrj":
+        for i, (a, b) in enumerate(zip(res["r"], replies[0]["r"])):
+            msg = _cmp_out(f"to_string #{i} (keys that are not strings)", a, b)
+            if msg:
+                return msg
+        return None
     if op == "context":
         m = replies[0]
         for i, (w, a, b) in enumerate(zip(case["items"], res["calls"], m["calls"])):
@@ -1963,7 +1999,47 @@ def _oracle_context(case, res):
     return None
 
 
-_ORACLES = {"context": _oracle_context, "wfdup": lambda case, res: None, "addr": _oracle_addr, "getx": _oracle_getx, "s2d": _oracle_s2d, "format": _oracle_format, "tostr": _oracle_tostr,
+def _j_error(v):
+    """must json.dumps(sort_keys=True) fail: keys that cannot be compared or cannot be written, an unserialisable item"""
+    if isinstance(v, dict):
+        keys = list(v)
+        if any(isinstance(k, Obj) for k in keys):
+            return True
+        if len(keys) > 1:
+            kinds = {"s" if isinstance(k, str) else "n" if isinstance(k, (int, float)) else "x" for k in keys}
+            if kinds != {"s"} and kinds != {"n"}:
+                return True
+        return any(_j_error(x) for x in v.values())
+    if isinstance(v, list):
+        return any(_j_error(x) for x in v)
+    return isinstance(v, Obj)
+
+
+def _oracle_tostrj(case, res):
+    vs = [decj(w) for w in case["vs"]]
+    for v, r in zip(vs, res["r"]):
+        if _j_error(v):
+            if r.get("e") != "LenaValueError":
+                return f"to_string({v!r}): not serialisable with sorted keys, expected LenaValueError, got {r}"
+        elif "e" in r or not isinstance(r.get("r"), str):
+            return f"to_string({v!r}) = {r}"
+    for i in range(len(vs)):
+        for j in range(i + 1, len(vs)):
+            if "r" in res["r"][i] and "r" in res["r"][j] and vs[i] == vs[j] and _same_key_types(vs[i], vs[j]) \
+                    and res["r"][i]["r"] != res["r"][j]["r"]:
+                return f"equal dictionaries {vs[i]!r} (in different key order) give different strings"
+    return None
+
+
+def _same_key_types(a, b):
+    if isinstance(a, dict) and isinstance(b, dict):
+        return {(type(k), k) for k in a} == {(type(k), k) for k in b} and all(_same_key_types(a[k], b[k]) for k in a)
+    if isinstance(a, list) and isinstance(b, list):
+        return all(_same_key_types(x, y) for x, y in zip(a, b))
+    return type(a) is type(b)
+
+
+_ORACLES = {"tostrj": _oracle_tostrj, "context": _oracle_context, "wfdup": lambda case, res: None, "addr": _oracle_addr, "getx": _oracle_getx, "s2d": _oracle_s2d, "format": _oracle_format, "tostr": _oracle_tostr,
             "upd": _oracle_upd, "fuw": _oracle_fuw, "setctx": _oracle_setctx, "uc": _oracle_uc, "dc": _oracle_dc}
 
 
@@ -1978,7 +2054,7 @@ def nontrivial(case, res):
     op = case["op"]
     if op == "addr":
         return any(rec.startswith("=") for rec in res["paths"][1:]) and any(rec.startswith("Lena") for rec in res["paths"])
-    if op in ("getx", "upd", "fuw", "context"):
+    if op in ("getx", "upd", "fuw", "context", "tostrj"):
         return True
     if op == "s2d":
         return True
